@@ -253,6 +253,41 @@ pub fn c14_tasks(ctx_seed: u64, s: &Setting, th: bool) -> Vec<(Task, Where, Vec<
             out.push((Task::SignAt { hid, params: l.clone(), seed: seed.clone(), counter: c, msg: hex::encode(det_bytes(ctx_seed, "c14msg", 20 + ci)), entry, aux_len: if ci % 3 == 2 { Some(aux_full) } else { None } }, wh, l.clone()));
         }
     }
+    // verification in a restricted build of VALID triples whose parameters lie beyond its limits (made by
+    // the model: one level more, the next height, the next lower W, and an 8-level chain): any verdict
+    // but no crash
+    let mut beyond: Vec<Vec<Param>> = vec![];
+    if s.levels < 8 {
+        beyond.push((0..s.levels + 1).map(|_| p(4, 2)).collect());
+        beyond.push((0..8).map(|_| p(8, 2)).collect());
+    }
+    for i in 0..s.levels.min(2) {
+        let mut base: Vec<Param> = (0..=i).map(|k| p(s.ws[k].max(4), 2.min(s.heights[k]))).collect();
+        if let Some(h) = next_height(s.heights[i]) {
+            if h <= 10 {
+                base[i] = p(s.ws[i].max(4), h);
+                beyond.push(base.clone());
+            }
+        }
+        if let Some(w) = prev_w(s.ws[i]) {
+            base[i] = p(w, 2.min(s.heights[i]));
+            beyond.push(base.clone());
+            base[i] = p(1, 2.min(s.heights[i]));
+            beyond.push(base.clone());
+        }
+    }
+    beyond.sort();
+    beyond.dedup();
+    for (bi, l) in beyond.into_iter().enumerate() {
+        let hid = hashes[bi % 3];
+        let m0 = Model::new(hid);
+        let m = if l.iter().any(|x| m0.ls_deviates(x.ots)) { m0.with_lib_ls() } else { m0 };
+        let seed = det_bytes(ctx_seed, &format!("c14v:{:?}", l), hid.n());
+        let msg = det_bytes(ctx_seed, "c14vmsg", 33);
+        if let (Ok((_, pk)), Ok((sig, _))) = (m.keygen(&l, &seed), m.hss_sign(&m.make_blob(0, &l, &seed), &msg)) {
+            out.push((Task::Verify { hid, msg: hex::encode(&msg), sig: hex::encode(&sig), pk: hex::encode(&pk) }, Where::Outside, l.clone()));
+        }
+    }
     out
 }
 
@@ -266,8 +301,16 @@ pub fn c14_judge(s: &Setting, task: &Task, wh: Where, probe: &Value, default: &V
         Task::Keygen { .. } => "keygen",
         Task::SignAt { .. } => "sign",
         Task::Lifetime { .. } => "lifetime",
+        Task::Verify { .. } => "verify",
         _ => "other",
     };
+    if let Some(vs) = probe["verify"].as_array() {
+        for x in vs {
+            if let Some(site) = x.as_str().and_then(|t| t.strip_prefix("panic:")) {
+                v.push(Viol::new(format!("C14:panic:verify:{}", site), format!("verification panicked at {} under build setting {} ({} with a parameter list {:?} the limits)", site, s.label(), op, wh)));
+            }
+        }
+    }
     if let Some(site) = res.strip_prefix("panic:") {
         v.push(Viol::new(format!("C14:panic:{}:{}", op, site), format!("{} panicked at {} under build setting {} for a parameter list {:?} the limits", op, site, s.label(), wh)));
         return v;
